@@ -27,7 +27,7 @@ RULE = (
     "reader stream cut by a chunk policy (1, 7, 511, 512, 513, 4096, large, random, exactly-at-block-boundary) with "
     "simulated latency per read, optionally truncated at a boundary class (inside header, after header, inside "
     "data, after data, inside padding, at a member boundary, before / inside the end-of-archive blocks) or with one "
-    "flipped header byte. enum=grid: 4 trees x 9 policies x all truncation classes. Oracle: untruncated => extracted "
+    "flipped header byte; enum=stale: a stale regular file in the destination at the path of an empty directory of the archive. enum=grid: 4 trees x 9 policies x all truncation classes. Oracle: untruncated => extracted "
     "tree == source tree (contents, structure, exec bits; symlinks dereferenced) for every chunking, and archives "
     "written by the repo are listed and extracted identically by `tar` and tarfile; truncated/corrupted => the "
     "copy raises, or the destination is complete (cut inside trailing padding) - never success with a missing or "
@@ -56,6 +56,10 @@ def cases(tier):
             out.append({"enum": "grid", "tree_seed": 500 + ts, "policy": pol, "fault": "none", "producer": PRODUCERS[(ts + pi) % 5]})
             for ci, cl in enumerate(CLASSES):
                 out.append({"enum": "grid", "tree_seed": 500 + ts, "policy": pol, "fault": "truncate", "klass": cl, "producer": PRODUCERS[(ts + ci) % 5]})
+    # destination fault: a stale regular file sits where the archive has an (empty) directory - the copy must fail,
+    # not report success with the directory missing
+    for ts in range(24 if tier == "quick" else 200):
+        out.append({"enum": "stale", "tree_seed": 700 + ts, "policy": SS.POLICIES[ts % len(SS.POLICIES)], "fault": "stale_file", "producer": PRODUCERS[ts % len(PRODUCERS)]})
     return out
 
 
@@ -91,6 +95,9 @@ def run(sim, params):
     os.makedirs(src_root)
     top, spec = SS.make_tree(src_root, gt, big=params.get("big", False))
     src = os.path.join(src_root, top)
+    if params.get("fault") == "stale_file" and spec[""][0] == "dir" and "zz-empty" not in spec:
+        os.makedirs(os.path.join(src, "zz-empty"))
+        spec["zz-empty"] = ("dir",)
     producer = params.get("producer") or PRODUCERS[t.draw(len(PRODUCERS), "producer")]
     policy = params.get("policy") or SS.POLICIES[t.draw(len(SS.POLICIES), "policy")]
     fault = params.get("fault") or FAULTS[t.draw(len(FAULTS), "fault")]
@@ -169,6 +176,24 @@ def run(sim, params):
     # ---- extract through the simulated stream ---------------------------------------------------
     dst = os.path.join(sim.scratch, "dst", top if t.draw(2, "rename") else "renamed")
     os.makedirs(os.path.dirname(dst))
+    if fault == "stale_file":
+        data_in = data
+        empties = sorted(k for k, v in spec.items() if v[0] == "dir" and k and not any(o != k and o.startswith(k + "/") for o in spec))
+        if empties:
+            # an existing destination directory receives the source INSIDE it (extract_tar_stream): the copy lands in dst/<top>
+            final_root = os.path.join(dst, top)
+            stale = os.path.join(final_root, empties[0])
+            os.makedirs(os.path.dirname(stale), exist_ok=True)
+            with open(stale, "w") as f:
+                f.write("stale")
+            klass = "at_empty_directory"
+            sim.fault("stale_file_at_directory_path")
+        else:
+            fault = "none"
+    else:
+        final_root = dst
+    if fault != "stale_file":
+        final_root = dst
     reader = SS.SimReader(data_in, policy, t)
     outcome = {}
 
@@ -182,7 +207,7 @@ def run(sim, params):
             outcome["error"] = f"{type(e).__name__}: {e}"
 
     sim.run(extract())
-    got = SS.read_tree(dst)
+    got = SS.read_tree(final_root)
     want = SS.expected_files(spec)
     d = SS.diff_trees(want, got)
     sigpol = "short_reads" if policy in ("1", "7", "511", "513", "random", "block_boundary") else "aligned_reads"
